@@ -2,6 +2,7 @@
    Only statements; proofs live in Proof/P_Consts.v, the model in Model/M_Consts.v. *)
 From Coq Require Import ZArith List Bool.
 From CyVerif Require Import Lib.CInt Model.M_Consts Proof.P_Consts Proof.P_ConstsFrozen Model.M_ConstNames Proof.P_ConstNames.
+From CyVerif Require Model.M_Fold Proof.P_Fold.
 Import ListNotations.
 Open Scope Z_scope.
 
@@ -238,3 +239,77 @@ Example C09_names_nonvacuous :
   | _ => false
   end = true.
 Proof. vm_compute. split; reflexivity. Qed.
+
+
+(* ------------------------------------------------------------------------------------------------
+   ConstantFolding on sequence displays (Optimize.py: visit_SequenceNode, visit_MulNode,
+   _calculate_constant_seq, visit_BinopNode for '*', and the consumers of constant results
+   visit_PrimaryCmpNode '==', visit_BoolBinopNode 'or', visit_CondExprNode); model Model/M_Fold.v.
+   fold fx guard:  fx = false the code as it is, fx = true with
+   proposed_fixes/C09-multiplied_sequence_stale_constant.diff;  guard = true the code as it is
+   (a starred literal with a mult_factor is not inlined), guard = false without that test.
+   eval = CPython's value of the expression (None: CPython raises), fdenote = the value the folded
+   tree computes (a sequence node denotes items * mult_factor), cres = node.constant_result.
+   ------------------------------------------------------------------------------------------------ *)
+Module FoldStatements.
+Import M_Fold P_Fold.
+
+(* Full statement:  forall env e v, eval env e = Some v -> fdenote env (fold false true e) = Some v
+   is FALSE for the code as it is (C09_stale_constant_result_refuted: after a factor is attached the
+   sequence node keeps the constant result of the sequence as written, and '==', 'or', the
+   conditional expression decide on it).  Proved for the code as it is on every expression built
+   from displays, starred items, repetition by any integer / bool / run-time factor and nesting
+   (display_only), and for the repaired code on every expression of the model. *)
+Theorem C09_fold_display_value_partial : forall env e v,
+  display_only e = true -> eval env e = Some v -> fdenote env (fold false true e) = Some v.
+Proof. exact fold_display_value. Qed.
+Print Assumptions C09_fold_display_value_partial.
+
+Theorem C09_fold_value_repaired : forall env e v,
+  eval env e = Some v -> fdenote env (fold true true e) = Some v.
+Proof. exact fold_value_repaired. Qed.
+Print Assumptions C09_fold_value_repaired.
+
+(* every constant result the (repaired) compiler stores on a folded node is the run-time value *)
+Theorem C09_fold_constant_result_repaired : forall env e c v,
+  cres (fold true true e) = Some c -> eval env e = Some v -> v = c.
+Proof. exact fold_constant_result_repaired. Qed.
+Print Assumptions C09_fold_constant_result_repaired.
+
+(* code as it is: the stored int / bool / None constants of display expressions are right *)
+Theorem C09_fold_constant_result_scalar : forall env e c v,
+  display_only e = true -> nonseq c = true ->
+  cres (fold false true e) = Some c -> eval env e = Some v -> v = c.
+Proof. exact fold_constant_result_scalar. Qed.
+Print Assumptions C09_fold_constant_result_scalar.
+
+(* inlining a starred literal that carries a factor is wrong, whatever else is repaired *)
+Theorem C09_unguarded_inlining_refuted : forall fx env, exists e v,
+  display_only e = true /\ eval env e = Some v /\ fdenote env (fold fx false e) <> Some v.
+Proof. exact unguarded_inlining_refuted. Qed.
+Print Assumptions C09_unguarded_inlining_refuted.
+
+Theorem C09_stale_constant_result_refuted : forall env, exists e c v,
+  cres (fold false true e) = Some c /\ eval env e = Some v /\ v <> c /\
+  exists e2 v2, eval env e2 = Some v2 /\ fdenote env (fold false true e2) <> Some v2.
+Proof. exact stale_constant_result_refuted. Qed.
+Print Assumptions C09_stale_constant_result_refuted.
+
+Theorem C09_stale_constant_result_runtime_factor_refuted : exists env e v,
+  eval env e = Some v /\ fdenote env (fold false true e) <> Some v.
+Proof. exact stale_constant_result_runtime_factor_refuted. Qed.
+Print Assumptions C09_stale_constant_result_runtime_factor_refuted.
+
+(* non-vacuity: [0, *(1, 2) * n, *[7] * 3] * 2 with n = 2 at run time has a value, the folded tree
+   keeps the starred repeated literals as items and computes the same 16 elements *)
+Example C09_fold_nonvacuous :
+  let env := fun _ : nat => VInt 2 in
+  let e := EMul (EDisp KList [EInt 0; EStar (EMul (tup [1; 2]) (EVar 0));
+                              EStar (EMul (EDisp KList [EInt 7]) (EInt 3))]) (EInt 2) in
+  display_only e = true /\
+  match eval env e, fdenote env (fold false true e) with
+  | Some (VSeq KList l), Some (VSeq KList l') => (length l =? 16)%nat && (length l' =? 16)%nat
+  | _, _ => false
+  end = true.
+Proof. vm_compute. split; reflexivity. Qed.
+End FoldStatements.
